@@ -18,10 +18,15 @@ if "--suffix" in sys.argv:
 patch = os.path.join(src, "SEED_%s.patch" % which)
 demo = os.path.join(src, "SEED_%s_demo.patch" % which)
 note = os.path.join(src, "SEED_%s.md" % which)
+def _opt(name, default):
+    return sys.argv[sys.argv.index(name) + 1] if name in sys.argv else default
+patch, demo, note = _opt("--patch", patch), _opt("--demo", demo), _opt("--note", note)
+CHECK_V = _opt("--verif", V)          # which copy of the machinery evaluates the seed (a snapshot for first evaluations)
+ROUND = int(_opt("--round", "0"))
 for f in (patch, demo):
     if not os.path.exists(f):
         sys.exit("missing " + f)
-TARGET = "/tmp/cwtarget"
+TARGET = _opt("--target", "/tmp/cwtarget")
 env = dict(os.environ, CARGO_TARGET_DIR=TARGET, CARGO_NET_OFFLINE="true")
 
 def sh(cmd, cwd, **kw):
@@ -36,7 +41,7 @@ def tests(cwd):
     return passed, failed, failing, compile_err, r.stdout
 
 d = tempfile.mkdtemp(prefix="cwseed.")
-res = {"property": pid, "seed": which, "round": 2 if "seed2" in src else 1, "source": "independent sub-agent (given only the property text and a scratch worktree)"}
+res = {"property": pid, "seed": which, "round": ROUND or (2 if "seed2" in src else 1), "source": "independent sub-agent (given only the property text and a scratch worktree)"}
 try:
     repo = os.path.join(d, "repo")
     subprocess.check_call(["rsync", "-a", "--exclude", "target", "--exclude", ".git", "/repo/", repo + "/"])
@@ -67,7 +72,8 @@ try:
     ev = os.path.join(d, "ev")
     os.makedirs(ev)
     e2 = dict(os.environ, CW_REPO=repo, CW_EVIDENCE_DIR=ev)
-    r = subprocess.run([os.path.join(V, "check"), "--all"], cwd=V, env=e2, stdout=subprocess.PIPE, stderr=subprocess.STDOUT, text=True)
+    e2["CW_CACHE"] = os.path.join(d, "cache") if CHECK_V != V else e2.get("CW_CACHE", os.path.join(V, ".cache"))
+    r = subprocess.run([os.path.join(CHECK_V, "check"), "--all"], cwd=CHECK_V, env=e2, stdout=subprocess.PIPE, stderr=subprocess.STDOUT, text=True)
     fired = sorted(set(re.findall(r"^VIOLATION property=(C\d+)", r.stdout, re.M)))
     rules = sorted(set(re.findall(r"^--- (C\d+ R[\d.]+) \[", r.stdout, re.M)))
     res["checks_fired"] = fired
